@@ -283,7 +283,12 @@ def process_pyro_request(environ, path, parameters, start_response):
         print("ERROR handling {0} with params {1}:".format(path, parameters), file=stderr)
         traceback.print_exc(file=stderr)
         start_response('500 Internal Server Error', cors_response_header([('Content-Type', 'application/json; charset=utf-8')], pyro_app.cors))
-        reply = json.dumps(serializers.SerializerBase.class_to_dict(x)).encode("utf-8")
+        try:
+            reply = json.dumps(serializers.SerializerBase.class_to_dict(x)).encode("utf-8")
+        except Exception as jx:
+            # the error carries something json can't express (such as the partialData of a ConnectionClosedError), report it by its text
+            x = errors.PyroError("Error serializing exception: %s. Original exception: %s: %s" % (str(jx), type(x), str(x)))
+            reply = json.dumps(serializers.SerializerBase.class_to_dict(x)).encode("utf-8")
         return [reply]
 
 
